@@ -46,7 +46,7 @@ pub enum DerefAliases {
 pub enum SearchItem {
     Entry(StructureTag),
     Referral(StructureTag),
-    Done(LdapResult),
+    Done(StructureTag),
 }
 
 /// Wrapper for the internal structure of a result entry.
@@ -688,7 +688,8 @@ where
             SearchItem::Entry(tag) | SearchItem::Referral(tag) => {
                 return Ok(Some(ResultEntry(tag, controls)))
             }
-            SearchItem::Done(mut res) => {
+            SearchItem::Done(tag) => {
+                let mut res: LdapResult = Tag::StructureTag(tag).into();
                 res.ctrls = controls;
                 self.res = Some(res);
                 self.rx = None;
